@@ -302,5 +302,6 @@ Proof.
   destruct (Nat.eqb n (S (oout s))) eqn:E1; [apply Nat.eqb_eq in E1; lia|].
   destruct (Nat.eqb (S n) (oout s)); [|discriminate H].
   destruct (drop_due t (active s)) as [act'|]; [|discriminate H].
-  destruct (Nat.eqb n _); [|discriminate H]. inversion H; subst. eauto.
+  destruct (Nat.eqb n (List.length act' + (if starting s then 1 else 0))); [|discriminate H].
+  inversion H; subst. eauto.
 Qed.
